@@ -234,7 +234,8 @@ def field_tables(prog, rep):
     for n in walk_own(mu.node):
         if isinstance(n, ast.Assign) and isinstance(n.targets[0], ast.Subscript) and isinstance(n.targets[0].slice, ast.Constant) and _base_text(n.targets[0].value, mu).startswith("self._metadata["):
             umap[_strip_json(n.value)] = n.targets[0].slice.value
-    if not umap:
+    touches = any((isinstance(n, ast.Subscript) and isinstance(n.ctx, ast.Store) and "_metadata" in _base_text(n.value, mu)) or (isinstance(n, ast.Call) and isinstance(n.func, ast.Attribute) and n.func.attr in ("update", "setdefault") and ("_metadata" in norm(n.func.value) or "_metadata" in _base_text(n.func.value.value if isinstance(n.func.value, ast.Subscript) else n.func.value, mu))) for n in walk_with_nested_exprs(mu.node))
+    if not umap and not touches:
         rep.undecided("FIELDS", mu.short, "update table", "no keyed write into the stored metadata found (another representation of the stored record?)", mu.loc())
     else:
       rep.check(umap == UPDATE_MAP, "FIELDS", mu.short, "update table", f"{umap}", f"update_bucket writes parameter->key {umap}, expected {UPDATE_MAP}", mu.loc(), expected=UPDATE_MAP, found=umap)
